@@ -899,6 +899,10 @@ func (s *DB) RemoveTombstones(ctx context.Context, before time.Time) error {
 		return fmt.Errorf("clone: %w", err)
 	}
 	cutoff := before.UnixNano()
+	if before.After(time.Unix(0, math.MaxInt64)) {
+		// UnixNano is undefined for times after the year 2262
+		cutoff = math.MaxInt64
+	}
 	origSize := s.Size()
 	err = sc.crdt.Mast.DiffIter(ctx, nil, func(added, removed bool, key, addedValue, removedValue interface{}) (keepGoing bool, err error) {
 		cv := addedValue.(crdtpub.Value)
